@@ -6,7 +6,8 @@
 (* executed generated module, judged against the reference layer.          *)
 (*                                                                         *)
 (* C02 event: [id, p |-> "C02", doc, executes, imports, classes, parsed,   *)
-(*             eqs, kinds, dkinds]                                         *)
+(*             eqs, kinds, dkinds, nobj]                                   *)
+(*   nobj    : object schemas of the document (nodes of the graph), -1 n/a *)
 (*   imports : names the module imports                                    *)
 (*   classes : <<[name, uses]>> classes in textual order with every name   *)
 (*             their statement loads                                       *)
@@ -40,6 +41,7 @@ C02_Clause(e) ==
      ELSE IF \E j, k \in 1..Len(names) : j < k /\ names[j] = names[k] THEN "class-declared-twice"
      ELSE IF SeqRange(names) \cap imps # {} THEN "class-name-shadows-import"
      ELSE IF SeqRange(names) # SeqRange(e.parsed) THEN "not-one-class-per-object-schema"
+     ELSE IF e.nobj >= 0 /\ Len(names) # e.nobj THEN "not-one-class-per-object-schema-of-the-document"
      ELSE IF \E k \in 1..Len(e.eqs) : ~e.eqs[k] THEN "generated-class-differs-from-parsed"
      ELSE IF e.kinds # e.dkinds THEN "generated-root-validates-differently"
      ELSE IF \E k \in 1..NValues : ~R_C01(e.doc, Values[k], e.kinds[k])
